@@ -118,6 +118,9 @@ var (
 )
 
 func init() {
+	for _, a := range workload.Aliasing {
+		mutators = append(mutators, struct{ Src, In string }{a.Src, a.In})
+	}
 	for _, src := range []string{`sort`, `reverse`, `unique`, `.[3:20]`, `.[3:20] | .[0] = 99`, `.[:5] + [0]`, `(.[:5] | . + [1,2]), .`, `[.[:5], .[30:]] | add`, `.[10:] = [1]`, `del(.[5:30])`, `map(. + 1)`, `group_by(. % 3)`, `.[] |= . + 1`, `[limit(20; .[])]`, `to_entries | map(.value)`, `[.[] | select(. > 20)]`, `.[39] = 1, .[40] = 1, .[45] = 1`, `.[:40] | .[40] = 1`, `flatten`, `tojson | fromjson`, `min, max, add`, `[.[1:], .[:1]] | add | length`} {
 		mutators = append(mutators, struct{ Src, In string }{src, bigArr})
 	}
